@@ -13,6 +13,7 @@ TRANSLATORS: dict[str, str] = {
     "GenLadder": "ladder",
     "GenData": "data",
     "GenFields": "fields",
+    "GenGraph": "graph",
     "GenLocales": "locales",
 }
 
